@@ -517,5 +517,73 @@ static void st_gen(Ctx& ctx) {
     });
 }
 
+
+// ------------------------------------------------------------------------------------------- sequences of inverse-transform calls
+// Successive ifft / irfft / IfftPlanR calls of neighbouring sizes inside ONE case (one thread): every call must still return the
+// inverse for ITS OWN arguments and every odd irfft size must still be rejected, whatever was requested just before
+// (a result or a rejection must not depend on the previous call).
+VK_SUB(seqs, "inverse_call_sequences");
+static void seqs_check(const Json& c, Out& o) {
+    int idx = 0;
+    o.evals = 0;
+    for (auto& call : c.at("calls").a) {
+        const int n = call.geti("n"), form = call.geti("form");
+        Rng r(call.getu("seed"));
+        ++o.evals;
+        if (form == 4) {   // complex ifft round trip against the long-double inverse DFT
+            arr_cmplx X = to_arr(gen_cmplx(r, n, S_GAUSS));
+            auto ref = ld_dft(to_cld(X), true);
+            ld e = l2diff(to_cld(ifft(X)), ref), tol = 32 * ld(n) * EPS * std::max<ld>(l2(ref), 1e-300L);
+            if (!(e <= tol)) { o.fail("sequence:ifft:value", fmt("call %d: ifft n=%d differs from the inverse DFT by %.3Lg (tol %.3Lg)", idx, n, e, tol)); break; }
+        } else if (n % 2 == 1) {   // odd size: must throw in every form
+            arr_cmplx X = to_arr(gen_cmplx(r, form == 0 ? n : n / 2 + 1, S_GAUSS));
+            bool threw = false;
+            size_t got = 0;
+            try {
+                if (form == 2) { IfftPlanR plan(n); got = size_t(plan(X).size()); }
+                else got = size_t(irfft(X, n).size());
+            } catch (const std::exception&) { threw = true; }
+            if (!threw) { o.fail("sequence:irfft:odd-accepted", fmt("call %d of the sequence: irfft(X[%d], n=%d) did not throw (returned %zu samples)", idx, X.size(), n, got)); break; }
+        } else {
+            std::vector<double> x = gen_real(r, n, S_GAUSS);
+            std::vector<cld> xl(x.size());
+            for (size_t i = 0; i < x.size(); ++i) xl[i] = cld(x[i], 0);
+            auto Xl = ld_dft(xl);
+            arr_cmplx X(form == 0 ? n : n / 2 + 1);
+            for (int k = 0; k < X.size(); ++k) X[k] = cmplx_t(double(Xl[size_t(k)].real()), double(Xl[size_t(k)].imag()));
+            arr_real y;
+            if (form == 2) { IfftPlanR plan(n); y = plan(X); }
+            else if (form == 3 && X.size() == n) y = irfft(X);
+            else y = irfft(X, n);
+            if (y.size() != n) { o.fail("sequence:irfft:size", fmt("call %d: irfft n=%d returned %d samples", idx, n, y.size())); break; }
+            std::vector<cld> yl = to_cld(y);
+            ld e = l2diff(yl, xl), tol = 64 * ld(n) * EPS * std::max<ld>(l2(xl), 1e-300L);
+            if (!(e <= tol)) { o.fail("sequence:irfft:value", fmt("call %d: irfft n=%d form=%d differs from x by %.3Lg (tol %.3Lg)", idx, n, form, e, tol)); break; }
+        }
+        ++idx;
+    }
+    if (c.at("calls").size() >= 2) {
+        uint64_t k = 0x5E9;
+        for (auto& call : c.at("calls").a) k = mix(k, key_of(call.geti("n"), call.geti("form")));
+        o.nontrivial(k);
+    }
+    o.label(fmt("calls:%d", int(c.at("calls").size())));
+}
+static void seqs_gen(Ctx& ctx) {
+    ctx.rc("random", ctx.by_tier(20000, 200000), [&]() {
+        Json calls = Json::array();
+        int base = pick(1, 96);
+        int ncalls = pick(2, 7);
+        for (int k = 0; k < ncalls; ++k) {
+            int n = std::max(1, base + pick(-2, 2) + (pick(0, 5) == 0 ? base : 0));
+            if (pick(0, 6) == 0) base = pick(1, 96);
+            int form = pick(0, 4);
+            if (form == 3 && n % 2 == 1) form = 0;
+            calls.push(Json::object().set("n", n).set("form", form).set("seed", (long long)seed64()));
+        }
+        return Json::object().set("calls", calls);
+    });
+}
+
 VK_FRESH_THREADS;
 VK_MAIN("C02")
